@@ -115,6 +115,7 @@ NextG == step < MaxOps /\ \E oa \in Menu(Menus[step + 1]) : StepG(oa[1], oa[2])
 \* g1, g2: two registers each of the source groups, gt: two registers of the target group (logs w.r.t. e(G1, G2)).
 \* The library's pairing engine refuses the identity in either argument (an error, not the value 1): modelled as ok = FALSE.
 PairOK(a, b) == a # 0 /\ b # 0
+PairW == 1024                \* window of the target group's reference table (harness/cmd/groupprog/pair.go: gtWindow)
 RECURSIVE PairSum(_, _, _, _)
 PairSum(xs, ys, pairs, sign) == IF Len(pairs) = 0 THEN 0
                                 ELSE sign * xs[pairs[1][1]] * ys[pairs[1][2]] + PairSum(xs, ys, Tail(pairs), sign)
@@ -138,7 +139,7 @@ StepP(op, args) ==
   /\ step < MaxOps
   /\ LET ok == PairsOK(g1, g2, args)
          v == PairSum(g1, g2, args, IF op = "mpairinv" THEN -1 ELSE 1)
-     IN /\ ok => Abs(v) <= W
+     IN /\ ok => Abs(v) <= PairW
         /\ Emit([d |-> step, g1 |-> g1, g2 |-> g2, gt |-> gt, op |-> op, args |-> args, ok |-> ok, post |-> IF ok THEN v ELSE 0])
         /\ IF ok THEN gt' = <<gt[2], v>> /\ step' = step + 1 ELSE UNCHANGED <<gt, step>>
   /\ UNCHANGED <<regs, g1, g2>>
@@ -149,7 +150,7 @@ StepT(op, args) ==
                    res |-> IF op = "geq" THEN gt[args[1]] = gt[args[2]] ELSE gt[args[1]] = 0])
           /\ UNCHANGED vars
      ELSE LET v == GtValue(op, args) IN
-          /\ Abs(v) <= W
+          /\ Abs(v) <= PairW
           /\ Emit([d |-> step, g1 |-> g1, g2 |-> g2, gt |-> gt, op |-> op, args |-> args, post |-> v])
           /\ gt' = <<gt[2], v>> /\ step' = step + 1 /\ UNCHANGED <<regs, g1, g2>>
 NextP == \/ \E oa \in (IF step = 0 THEN PairMenu ELSE LaterPairMenu) : StepP(oa[1], oa[2])
